@@ -351,6 +351,7 @@ var theProg *Prog
 
 func (p *Prog) flatten() {
 	theProg = p
+	ssa.NeverNilGlobal = p.sentinelError
 	var tops []*ssa.Function
 	for _, f := range p.funcs {
 		if nil == f.Parent() {
@@ -441,6 +442,9 @@ func (p *Prog) flatten() {
 	for _, f := range tops {
 		p.Devirt += ssa.DevirtualizePromoted(f, resolvePromoted)
 	}
+	/* A function kept in a field or package-level variable for the tests'
+	sake (now: time.Now) and never given another value is that function. */
+	p.Devirt += p.devirtualiseFuncVars(tops)
 	/* One spelling per operation (len(s) == 0 is s == "", ...). */
 	for _, f := range tops {
 		p.Canon += ssa.Canonicalize(f)
@@ -485,6 +489,15 @@ func (p *Prog) flatten() {
 			break
 		}
 		p.Devirt += did
+		more := ssa.FlattenAll(tops, isHelper)
+		p.Flat.Inlined += more.Inlined
+		p.Flat.GoTurned += more.GoTurned
+		p.Flat.Bound += more.Bound
+	}
+	/* (function-valued fields again: a helper which was handed the field's
+	value as a parameter has been folded in by now) */
+	if n := p.devirtualiseFuncVars(tops); n > 0 {
+		p.Devirt += n
 		more := ssa.FlattenAll(tops, isHelper)
 		p.Flat.Inlined += more.Inlined
 		p.Flat.GoTurned += more.GoTurned
@@ -918,7 +931,7 @@ func (p *Prog) collapseForwarders(tops []*ssa.Function) {
 // (ssa.MaterialiseTable), so that the loop over it is unrolled like any other
 // loop over a small literal.
 func (p *Prog) materialiseTables(f *ssa.Function) {
-	var loads []*ssa.UnOp
+	var loads, arrLoads []*ssa.UnOp
 	var scan func(g *ssa.Function)
 	scan = func(g *ssa.Function) {
 		for _, b := range g.Blocks {
@@ -934,6 +947,9 @@ func (p *Prog) materialiseTables(f *ssa.Function) {
 				if _, isSl := u.Type().Underlying().(*types.Slice); isSl {
 					loads = append(loads, u)
 				}
+				if at, isArr := u.Type().Underlying().(*types.Array); isArr && at.Len() >= 1 && at.Len() <= 8 {
+					arrLoads = append(arrLoads, u)
+				}
 			}
 		}
 		for _, a := range g.AnonFuncs {
@@ -941,6 +957,29 @@ func (p *Prog) materialiseTables(f *ssa.Function) {
 		}
 	}
 	scan(f)
+	/* A package-level array (var t = [...]T{…}) is filled element by
+	element in the initialiser. */
+	for _, u := range arrLoads {
+		gl := u.X.(*ssa.Global)
+		cells, n := p.globalArrayCells(gl)
+		if nil == cells {
+			continue
+		}
+		hasFunc := false
+		for _, row := range cells {
+			for _, v := range row {
+				if _, isF := v.(*ssa.Function); isF {
+					hasFunc = true
+				}
+			}
+		}
+		if hasFunc && ssa.MaterialiseTable(u, n, cells) {
+			p.Materialised++
+			if "" != os.Getenv("CRS_FLATDEBUG") {
+				fmt.Fprintf(os.Stderr, "MATERIALISED array table %s in %s\n", gl.Name(), f)
+			}
+		}
+	}
 	for _, u := range loads {
 		once := p.globalOnce(u)
 		if nil == once {
@@ -1183,4 +1222,209 @@ func isBackgroundCtx(c *ssa.Call) bool {
 		return "Background" == sc.Name() || "TODO" == sc.Name()
 	}
 	return false
+}
+
+// globalArrayCells: the elements of the package-level array variable g of the
+// module, when each is stored exactly once, at a constant index, whole, in
+// g's package initialiser, and g is otherwise only read (loaded whole, or an
+// element loaded) anywhere in the module.  (cells[i][-1] is element i.)
+func (p *Prog) globalArrayCells(g *ssa.Global) (map[int64]map[int]ssa.Value, int64) {
+	at, ok := g.Type().Underlying().(*types.Pointer).Elem().Underlying().(*types.Array)
+	if !ok || !p.ownGlobal(g) {
+		return nil, 0
+	}
+	cells := map[int64]map[int]ssa.Value{}
+	good := true
+	ini := g.Pkg.Func("init")
+	p.eachModuleInstr(g, func(i ssa.Instruction) {
+		var ops []*ssa.Value
+		for _, o := range i.Operands(ops) {
+			if nil == *o || *o != ssa.Value(g) {
+				continue
+			}
+			switch x := i.(type) {
+			case *ssa.UnOp:
+				if token.MUL != x.Op {
+					good = false
+				}
+			case *ssa.IndexAddr:
+				k, isC := constInt(x.Index)
+				for _, r := range *x.Referrers() {
+					switch y := r.(type) {
+					case *ssa.UnOp:
+						if token.MUL != y.Op {
+							good = false
+						}
+					case *ssa.Store:
+						if y.Addr != ssa.Value(x) || !isC || i.Parent() != ini {
+							good = false
+							continue
+						}
+						if _, dup := cells[k]; dup {
+							good = false
+						}
+						v := y.Val
+						if ct, isCT := v.(*ssa.ChangeType); isCT {
+							v = ct.X /* a function given its named type */
+						}
+						cells[k] = map[int]ssa.Value{-1: v}
+					case *ssa.DebugRef:
+					default:
+						good = false
+					}
+				}
+			case *ssa.DebugRef:
+			default:
+				good = false
+			}
+		}
+	})
+	if !good || int64(len(cells)) != at.Len() {
+		return nil, 0
+	}
+	return cells, at.Len()
+}
+
+// devirtualiseFuncVars: a call through a func-typed struct field, or through
+// a package-level func variable, of the module which is only ever given one
+// and the same plain function (no closure) — "now: time.Now", "var now =
+// time.Now", there so that tests can swap it — is a call of that function.
+// The field's or variable's address must be used for nothing but stores and
+// loads anywhere in the module (tests are not loaded).
+func (p *Prog) devirtualiseFuncVars(tops []*ssa.Function) int {
+	type slot struct {
+		fn   *ssa.Function
+		bad  bool
+		nset int
+	}
+	fields := map[*types.Var]*slot{}
+	globals := map[*ssa.Global]*slot{}
+	get := func(fv *types.Var, g *ssa.Global) *slot {
+		if nil != fv {
+			if _, ok := fields[fv]; !ok {
+				fields[fv] = &slot{}
+			}
+			return fields[fv]
+		}
+		if _, ok := globals[g]; !ok {
+			globals[g] = &slot{}
+		}
+		return globals[g]
+	}
+	isFuncT := func(t types.Type) bool {
+		_, ok := t.Underlying().(*types.Signature)
+		return ok
+	}
+	note := func(sl *slot, refs []ssa.Instruction, addr ssa.Value) {
+		for _, r := range refs {
+			switch x := r.(type) {
+			case *ssa.Store:
+				if x.Addr != addr {
+					sl.bad = true
+					continue
+				}
+				v := x.Val
+				if ct, ok := v.(*ssa.ChangeType); ok {
+					v = ct.X
+				}
+				f, ok := v.(*ssa.Function)
+				if !ok || nil != f.Parent() || (nil != sl.fn && sl.fn != f) {
+					sl.bad = true
+					continue
+				}
+				sl.fn = f
+				sl.nset++
+			case *ssa.UnOp:
+				if token.MUL != x.Op {
+					sl.bad = true
+				}
+			case *ssa.DebugRef:
+			default:
+				sl.bad = true
+			}
+		}
+	}
+	var all []*ssa.Function
+	var collect func(f *ssa.Function)
+	collect = func(f *ssa.Function) {
+		all = append(all, f)
+		for _, a := range f.AnonFuncs {
+			collect(a)
+		}
+	}
+	for _, f := range tops {
+		collect(f)
+	}
+	for _, pk := range p.SSA.AllPackages() {
+		if strings.HasPrefix(pk.Pkg.Path(), ModPath) {
+			if ini := pk.Func("init"); nil != ini {
+				collect(ini)
+			}
+		}
+	}
+	for _, f := range all {
+		for _, b := range f.Blocks {
+			for _, i := range b.Instrs {
+				switch x := i.(type) {
+				case *ssa.FieldAddr:
+					st := derefStruct(x.X.Type())
+					if nil == st {
+						continue
+					}
+					fv := st.Field(x.Field)
+					if !isFuncT(fv.Type()) || nil == fv.Pkg() || !strings.HasPrefix(fv.Pkg().Path(), ModPath) {
+						continue
+					}
+					note(get(fv, nil), *x.Referrers(), x)
+				case *ssa.Field:
+					/* Read off a struct value: a read. */
+				default:
+					var ops []*ssa.Value
+					for _, o := range i.Operands(ops) {
+						g, ok := (*o).(*ssa.Global)
+						if !ok || !p.ownGlobal(g) || !isFuncT(g.Type().Underlying().(*types.Pointer).Elem()) {
+							continue
+						}
+						note(get(nil, g), []ssa.Instruction{i}, g)
+					}
+				}
+			}
+		}
+	}
+	n := 0
+	for _, f := range all {
+		for _, b := range f.Blocks {
+			for _, i := range b.Instrs {
+				ci, ok := i.(ssa.CallInstruction)
+				if !ok || ci.Common().IsInvoke() {
+					continue
+				}
+				ld, ok := ci.Common().Value.(*ssa.UnOp)
+				if !ok || token.MUL != ld.Op {
+					continue
+				}
+				var sl *slot
+				switch a := ld.X.(type) {
+				case *ssa.FieldAddr:
+					if st := derefStruct(a.X.Type()); nil != st {
+						sl = fields[st.Field(a.Field)]
+					}
+				case *ssa.Global:
+					sl = globals[a]
+				}
+				if nil == sl || sl.bad || nil == sl.fn || 0 == sl.nset {
+					continue
+				}
+				if !types.Identical(sl.fn.Signature.Params(), ci.Common().Signature().Params()) {
+					continue
+				}
+				ci.Common().Value = sl.fn
+				n++
+				if "" != os.Getenv("CRS_FLATDEBUG") {
+					fmt.Fprintf(os.Stderr, "FUNCVAR call in %s is a call of %s\n", f, sl.fn)
+				}
+			}
+		}
+	}
+	return n
 }
